@@ -38,7 +38,7 @@ ANN_POOL = [("int", "int"), ("List[int]", "List[int]"), ("Optional[str]", "Optio
             ('"str"', "str"), ('"List[int]"', "List[int]"), ("'typing.Sequence[str]'", "typing.Sequence[str]"),
             ('Optional["Foo"]', "Optional[Foo]"), ('List["int"]', "List[int]"), ('Dict[str, "Foo.Bar"]', "Dict[str, Foo.Bar]"),
             ('"Optional[\'Foo\']"', "Optional[Foo]"), ('"int | None"', "int | None"), ('typing.Literal["x"]', "typing.Literal['x']")]
-DEF_POOL = ["None", "True", "-1", "1.5", "'s'", "\"it's\"", "b'x'", "()", "(1, 2)", "[1, 2]", "{'a': 1}", "{1, 2}", "x.y",
+DEF_POOL = ["None", "True", "-1", "1.5", "'s'", "\"it's\"", "b'x'", "()", "(1, 2)", "[1, 2]", "{'a': 1}", "x.y",
             "f(1, k=2)", "lambda a: a", "...", "a + b", "not a", "a if b else c", "x[1]", "-x", "[]", "{}", "1j", "x.y.z()",
             "'a' 'b'", "0x10", "a and b", "a < b", "f(*a, **k)", "x[1:2]", "(yield_)", "a * b + c", "f'{x}'"]
 
